@@ -171,11 +171,14 @@ def config_event(cfg, rng):
     return ev
 
 
-def multi_event(parts, matname, rng):
-    """every ordered partition TLC enumerates: multi-block functions vs single-block functions (same material)."""
+def multi_event(parts, matname, rng, proj=None):
+    """every ordered partition TLC enumerates: multi-block functions vs single-block functions (same material), with the
+    same pressure-projection option on both sides (proj: None, 0 or 1; seed C02d)."""
     import jax.numpy as np
     from optimism import Mechanics, Mesh
     order = rng.choice([1, 2])
+    if proj is not None:
+        order = 2           # the projection is the identity on linear elements
     fs = make_fs(order, rng, False)
     mat = make_material(matname, rng)
     blocks = {"blk%d" % i: np.array([e - 1 for e in p]) for i, p in enumerate(parts)}
@@ -183,11 +186,13 @@ def multi_event(parts, matname, rng):
     nn = fs.mesh.coords.shape[0]
     coords = onp.asarray(fs.mesh.coords)
     U = np.array(coords @ onp.array([[0.02, -0.01], [0.015, 0.03]]).T + onp.array([[rng.uniform(-0.004, 0.004) for _ in range(2)] for _ in range(nn)]))
-    ev = dict(e="Multi", parts=parts, mat=matname, energy="NE", state="NE", stiff="NE", init="NE")
+    ev = dict(e="Multi", parts=parts, mat=matname, proj=("none" if proj is None else "p%d" % proj), energy="NE", state="NE", stiff="NE",
+              init="NE")
     try:
         with Silence():
-            single = Mechanics.create_mechanics_functions(fs, "plane strain", mat)
-            multi = Mechanics.create_multi_block_mechanics_functions(fsm, "plane strain", {k: mat for k in blocks})
+            single = Mechanics.create_mechanics_functions(fs, "plane strain", mat, pressureProjectionDegree=proj)
+            multi = Mechanics.create_multi_block_mechanics_functions(fsm, "plane strain", {k: mat for k in blocks},
+                                                                     pressureProjectionDegree=proj)
             s0 = single.compute_initial_state(); m0 = multi.compute_initial_state()
             ev["init"] = "EQ" if rel_eq(m0, s0) else "NE"
             st = single.compute_updated_internal_variables(0.7 * U, s0)
@@ -217,7 +222,7 @@ def main(tier, replay=None):
         elif c["mode"] == "config":
             ev = config_event(c["cfg"], r)
         else:
-            ev = multi_event(c["parts"], c["mat"], r)
+            ev = multi_event(c["parts"], c["mat"], r, c.get("proj"))
         traces.append(dict(id=1, ev=[ev])); cases[1] = c
     else:
         des = tlc.run("AssemblyGen.tla", "Assembly_design.cfg" if tier == "quick" else "Assembly_design_big.cfg",
@@ -293,8 +298,9 @@ def main(tier, replay=None):
             tid += 1
             s = rng.randrange(1 << 30)
             mat = "j2" if (tier == "thorough" and i % 10 == 3) else ("toy" if i % 4 != 3 else "neohookean")
-            traces.append(dict(id=tid, ev=[multi_event(p, mat, random.Random(s))]))
-            cases[tid] = dict(mode="multi", parts=p, mat=mat, seed=s)
+            proj = (None, 0, 1)[i % 3]        # the same option on both factories: splitting must be transparent under each
+            traces.append(dict(id=tid, ev=[multi_event(p, mat, random.Random(s), proj)]))
+            cases[tid] = dict(mode="multi", parts=p, mat=mat, seed=s, proj=proj)
     for t in traces:
         e = t["ev"][0]
         if e["e"] == "Tok":
